@@ -259,7 +259,7 @@ void __uatomic_and(void *addr, unsigned long val, int len)
 	{
 		__asm__ __volatile__(
 		"lock; andb %1, %0"
-			: "=m"(*__hp(1, addr))
+			: "+m"(*__hp(1, addr))
 			: "iq" ((unsigned char)val)
 			: "memory");
 		return;
@@ -268,7 +268,7 @@ void __uatomic_and(void *addr, unsigned long val, int len)
 	{
 		__asm__ __volatile__(
 		"lock; andw %1, %0"
-			: "=m"(*__hp(2, addr))
+			: "+m"(*__hp(2, addr))
 			: "ir" ((unsigned short)val)
 			: "memory");
 		return;
@@ -277,7 +277,7 @@ void __uatomic_and(void *addr, unsigned long val, int len)
 	{
 		__asm__ __volatile__(
 		"lock; andl %1, %0"
-			: "=m"(*__hp(4, addr))
+			: "+m"(*__hp(4, addr))
 			: "ir" ((unsigned int)val)
 			: "memory");
 		return;
@@ -287,7 +287,7 @@ void __uatomic_and(void *addr, unsigned long val, int len)
 	{
 		__asm__ __volatile__(
 		"lock; andq %1, %0"
-			: "=m"(*__hp(8, addr))
+			: "+m"(*__hp(8, addr))
 			: "er" ((unsigned long)val)
 			: "memory");
 		return;
@@ -314,7 +314,7 @@ void __uatomic_or(void *addr, unsigned long val, int len)
 	{
 		__asm__ __volatile__(
 		"lock; orb %1, %0"
-			: "=m"(*__hp(1, addr))
+			: "+m"(*__hp(1, addr))
 			: "iq" ((unsigned char)val)
 			: "memory");
 		return;
@@ -323,7 +323,7 @@ void __uatomic_or(void *addr, unsigned long val, int len)
 	{
 		__asm__ __volatile__(
 		"lock; orw %1, %0"
-			: "=m"(*__hp(2, addr))
+			: "+m"(*__hp(2, addr))
 			: "ir" ((unsigned short)val)
 			: "memory");
 		return;
@@ -332,7 +332,7 @@ void __uatomic_or(void *addr, unsigned long val, int len)
 	{
 		__asm__ __volatile__(
 		"lock; orl %1, %0"
-			: "=m"(*__hp(4, addr))
+			: "+m"(*__hp(4, addr))
 			: "ir" ((unsigned int)val)
 			: "memory");
 		return;
@@ -342,7 +342,7 @@ void __uatomic_or(void *addr, unsigned long val, int len)
 	{
 		__asm__ __volatile__(
 		"lock; orq %1, %0"
-			: "=m"(*__hp(8, addr))
+			: "+m"(*__hp(8, addr))
 			: "er" ((unsigned long)val)
 			: "memory");
 		return;
@@ -369,7 +369,7 @@ void __uatomic_add(void *addr, unsigned long val, int len)
 	{
 		__asm__ __volatile__(
 		"lock; addb %1, %0"
-			: "=m"(*__hp(1, addr))
+			: "+m"(*__hp(1, addr))
 			: "iq" ((unsigned char)val)
 			: "memory");
 		return;
@@ -378,7 +378,7 @@ void __uatomic_add(void *addr, unsigned long val, int len)
 	{
 		__asm__ __volatile__(
 		"lock; addw %1, %0"
-			: "=m"(*__hp(2, addr))
+			: "+m"(*__hp(2, addr))
 			: "ir" ((unsigned short)val)
 			: "memory");
 		return;
@@ -387,7 +387,7 @@ void __uatomic_add(void *addr, unsigned long val, int len)
 	{
 		__asm__ __volatile__(
 		"lock; addl %1, %0"
-			: "=m"(*__hp(4, addr))
+			: "+m"(*__hp(4, addr))
 			: "ir" ((unsigned int)val)
 			: "memory");
 		return;
@@ -397,7 +397,7 @@ void __uatomic_add(void *addr, unsigned long val, int len)
 	{
 		__asm__ __volatile__(
 		"lock; addq %1, %0"
-			: "=m"(*__hp(8, addr))
+			: "+m"(*__hp(8, addr))
 			: "er" ((unsigned long)val)
 			: "memory");
 		return;
@@ -425,7 +425,7 @@ void __uatomic_inc(void *addr, int len)
 	{
 		__asm__ __volatile__(
 		"lock; incb %0"
-			: "=m"(*__hp(1, addr))
+			: "+m"(*__hp(1, addr))
 			:
 			: "memory");
 		return;
@@ -434,7 +434,7 @@ void __uatomic_inc(void *addr, int len)
 	{
 		__asm__ __volatile__(
 		"lock; incw %0"
-			: "=m"(*__hp(2, addr))
+			: "+m"(*__hp(2, addr))
 			:
 			: "memory");
 		return;
@@ -443,7 +443,7 @@ void __uatomic_inc(void *addr, int len)
 	{
 		__asm__ __volatile__(
 		"lock; incl %0"
-			: "=m"(*__hp(4, addr))
+			: "+m"(*__hp(4, addr))
 			:
 			: "memory");
 		return;
@@ -453,7 +453,7 @@ void __uatomic_inc(void *addr, int len)
 	{
 		__asm__ __volatile__(
 		"lock; incq %0"
-			: "=m"(*__hp(8, addr))
+			: "+m"(*__hp(8, addr))
 			:
 			: "memory");
 		return;
@@ -480,7 +480,7 @@ void __uatomic_dec(void *addr, int len)
 	{
 		__asm__ __volatile__(
 		"lock; decb %0"
-			: "=m"(*__hp(1, addr))
+			: "+m"(*__hp(1, addr))
 			:
 			: "memory");
 		return;
@@ -489,7 +489,7 @@ void __uatomic_dec(void *addr, int len)
 	{
 		__asm__ __volatile__(
 		"lock; decw %0"
-			: "=m"(*__hp(2, addr))
+			: "+m"(*__hp(2, addr))
 			:
 			: "memory");
 		return;
@@ -498,7 +498,7 @@ void __uatomic_dec(void *addr, int len)
 	{
 		__asm__ __volatile__(
 		"lock; decl %0"
-			: "=m"(*__hp(4, addr))
+			: "+m"(*__hp(4, addr))
 			:
 			: "memory");
 		return;
@@ -508,7 +508,7 @@ void __uatomic_dec(void *addr, int len)
 	{
 		__asm__ __volatile__(
 		"lock; decq %0"
-			: "=m"(*__hp(8, addr))
+			: "+m"(*__hp(8, addr))
 			:
 			: "memory");
 		return;
